@@ -14,13 +14,17 @@ def mkmsg(t, eot, uid):
     import mido
     if eot:
         return mido.MetaMessage('end_of_track', time=t)
-    return mido.Message('control_change', channel=(uid >> 14) & 15, control=(uid >> 7) & 127, value=uid & 127, time=t)
+    if uid % 4 == 0:
+        return mido.MetaMessage('set_tempo', tempo=100000 + 16 * uid, time=t)      # tempo changes anywhere in the file
+    return mido.Message('note_on', channel=(uid >> 7) & 15, note=uid & 127, velocity=64, time=t)
 
 
 def uid_of(m):
     if m.type == 'end_of_track':
         return None
-    return (m.channel << 14) | (m.control << 7) | m.value
+    if m.type == 'set_tempo':
+        return (m.tempo - 100000) // 16
+    return (m.channel << 7) | m.note
 
 
 def obs_ints(track):
@@ -100,6 +104,15 @@ def impl_hist(case):
                 if ti < len(mf.tracks) and j < len(mf.tracks[ti]):
                     mf.tracks[ti][j].time = t
                 i += 4
+            elif k == 8:
+                ti, j, v = l[i + 1:i + 4]
+                if ti < len(mf.tracks) and j < len(mf.tracks[ti]):
+                    m = mf.tracks[ti][j]
+                    if m.type == 'set_tempo':
+                        m.tempo = (m.tempo // 16) * 16 + v % 16
+                    elif m.type == 'note_on':
+                        m.velocity = v
+                i += 4
             elif k == 6:
                 mf.type = l[i + 1]; i += 2
             elif k == 7:
@@ -162,8 +175,13 @@ def random_history(rng):
         elif r < 0.6:
             case += [4, rng.randrange(nt), rng.randrange(0, 3)]
         elif r < 0.72:
-            case += [5, rng.randrange(nt), rng.randrange(0, 3), rng.choice([0, 7, 100])]
-        elif r < 0.76:
+            ti_ = rng.randrange(nt)
+            case += [5, ti_, rng.randrange(0, 3), rng.choice([0, 7, 100])]
+            if rng.random() < 0.5:
+                case += [5, ti_, rng.randrange(0, 3), rng.choice([0, 7, 100])]
+        elif r < 0.74:
+            case += [8, rng.randrange(nt), rng.randrange(0, 3), rng.randrange(128)]
+        elif r < 0.77:
             case += [6, rng.choice([0, 1, 1, 2])]
         elif r < 0.8:
             case += [7, rng.choice([96, 480])]
@@ -181,7 +199,7 @@ def run(out):
     cases += [random_history(rng) for _ in range(n)]
     for tag, rec in core.pmap(job, chunk_jobs(cases, 'history', COMP_HIST)):
         core.merge_into(out, rec, tag)
-    out.rule = ('%d histories of 2-16 documented edits on one MidiFile (tracks.append, del tracks[i], add_track(), track.insert, del track[j], msg.time = t, '
+    out.rule = ('%d histories of 2-16 documented edits on one MidiFile (tracks.append, del tracks[i], add_track(), track.insert, del track[j], msg.time = t, msg.velocity / msg.tempo = v, '
                 'type, ticks_per_beat) interleaved with observations; at each observation merged_track is compared with the model, and merged_track, '
                 'iteration, length, play and the saved bytes are compared with a freshly built MidiFile holding a deep copy of the same contents; the order of '
                 'the first observation (length / iteration / merged_track) is varied. Non-trivial: every history; distinct by content.' % len(cases))
